@@ -26,9 +26,145 @@ MANIFEST = {
             'machinery themselves are not verified: tested on the implementation (equal element, same cached field class '
             'object, protocols 0..5, copy/deepcopy), incl. prime fields made from tuple moduli (p, n, w) with w negative, '
             'canonical and >= p. Array classes: only class identity / pickle / bytes of F.array on tuple-modulus fields when '
-            'NumPy is importable (it is not in /venv).',
+            'NumPy is importable (it is not in /venv). Array stream (subprocess under /verif/.venv-np, skipped with a note when '
+            'absent): signed_/unsigned_/intarray/abs/int()/repr/tolist of PrimeFieldArray, and to_bytes/from_bytes and pickle of '
+            'prime, extension (incl. order bit lengths = 1 mod 8: GF(7^3), GF(17^2), GF(5^7), GF(257^2)) and binary field arrays '
+            'must agree elementwise with the scalar element methods (all values for p <= 257, boundary (p-1)/2, (p+1)/2 and '
+            'random values above); the array classes are tested, not modelled.',
     'technique': 'Coq proof (induction over lists / base-256 digits) + vm_compute correspondence + implementation oracle incl. pickle',
 }
+
+
+ARRAY_SCRIPT = r"""
+import os, sys, json, random, pickle
+cfg = json.loads(sys.stdin.read())
+os.environ['MPYC_MAXWORKERS'] = '0'
+from mpyc import finfields
+from mpyc.numpy import np
+assert np, 'NumPy not importable'
+rng = random.Random(cfg['seed'] * 104729 + 22)
+fails, ncase, hist = [], 0, {}
+
+def bad(sig, **kw):
+    if len(fails) < 60:
+        fails.append([sig, kw])
+
+def flat(x):
+    return np.asarray(x).reshape(-1).tolist()
+
+fields = []
+for t in cfg['primes']:
+    if isinstance(t, list):
+        fields.append(('GF((%d, %d, %d))' % tuple(t), finfields.GF(tuple(t)), t[0], 'prime'))
+    else:
+        fields.append(('GF(%d)' % t, finfields.GF(t), t, 'prime'))
+for (pp, dd) in cfg['ext']:
+    fields.append(('GF(%d^%d)' % (pp, dd), finfields.GF(finfields.find_irreducible(pp, dd)), pp ** dd, 'binary' if pp == 2 else 'extension'))
+
+for name, F, q, kind in fields:
+    r = F.byte_length
+    if q <= 257:
+        base = list(range(q))
+    else:
+        base = [0, 1, 2, (q - 1) // 2 - 1, (q - 1) // 2, (q + 1) // 2, (q + 1) // 2 + 1, q - 2, q - 1, 256 ** (r - 1) if 256 ** (r - 1) < q else 0]
+        base += [rng.randrange(q) for _ in range(cfg['nrand'])]
+    streams = [('all', base, None)]
+    for n in cfg['sizes']:
+        vals = [rng.choice(base) for _ in range(n)]
+        shape = {6: (2, 3), 12: (3, 4), 24: (2, 3, 4)}.get(n) if rng.random() < 0.5 else None
+        streams.append(('n=%d' % n, vals, shape))
+    for v in base[:12]:
+        streams.append(('0-dim', [v], ()))
+    for label, vals, shape in streams:
+        ncase += 1
+        hist[kind] = hist.get(kind, 0) + 1
+        key = dict(field=name, stream=label, shape=list(shape) if shape is not None else None)
+        try:
+            els = [F(v) for v in vals]
+            a = F.array(np.array(vals, dtype=object)) if vals else F.array([])
+            if shape is not None:
+                a = a.reshape(shape)
+            if type(a) is not F.array or type(a).field is not F:
+                bad('array-type ' + name, **key)
+            # elements of the array are the scalar elements
+            tl = a.tolist()
+            tlf = [tl] if shape == () else flat(np.array(tl, dtype=object)) if vals else []
+            if [int(e.value) if hasattr(e, 'value') else e for e in tlf] != [int(e.value) for e in els] or any(type(e) is not F for e in tlf):
+                bad('array-tolist-differs ' + name, values=vals, **key)
+            if kind == 'prime':
+                p = q
+                sg, us = flat(a.signed_()), flat(a.unsigned_())
+                ia = flat(F.array.intarray(a))
+                ab = flat(abs(a))
+                want_s = [e.signed_() for e in els]
+                if [int(x) for x in sg] != want_s or any(not (-p < 2 * int(x) <= p) or (int(x) - v) % p for x, v in zip(sg, vals)):
+                    bad('array-signed-view-differs-from-scalar ' + name, values=vals, got=[int(x) for x in sg], want=want_s, **key)
+                if [int(x) for x in us] != [e.unsigned_() for e in els] or [int(x) for x in us] != vals:
+                    bad('array-unsigned-view-differs-from-scalar ' + name, values=vals, got=[int(x) for x in us], **key)
+                if [int(x) for x in ia] != [int(e) for e in els]:
+                    bad('array-intarray-differs-from-scalar ' + name, values=vals, got=[int(x) for x in ia], **key)
+                if [int(x) for x in ab] != [abs(e) for e in els]:
+                    bad('array-abs-differs-from-scalar ' + name, values=vals, got=[int(x) for x in ab], **key)
+                if np.asarray(a.signed_()).shape != a.shape:
+                    bad('array-signed-view-shape ' + name, **key)
+                if shape == ():
+                    if int(a) != int(els[0]) or abs(a) != abs(els[0]):
+                        bad('array-int-differs-from-scalar ' + name, values=vals, got=int(a), want=int(els[0]), **key)
+                if repr(a) != '%s' % (F.array.intarray(a),):
+                    bad('array-repr-differs ' + name, values=vals, **key)
+                if vals and not bool((F.array(np.asarray(a.signed_(), dtype=object)) == a).all()):
+                    bad('array-signed-view-not-a-representative ' + name, values=vals, **key)
+            # bytes: array values through to_bytes/from_bytes == scalar values
+            fv = a.value.reshape(-1)
+            data = F.to_bytes(fv)
+            want = b''.join(int(e.value).to_bytes(r, 'little') for e in els)
+            back = F.from_bytes(data)
+            if data != want or back != vals or len(data) != r * len(vals) or data != F.to_bytes([e.value for e in els]):
+                bad('array-bytes-differ ' + name, values=vals, got=list(data)[:60], back=back[:40], **key)
+            if vals and not bool((F.array(np.array(back, dtype=object)).reshape(a.shape) == a).all()):
+                bad('array-bytes-roundtrip ' + name, values=vals, **key)
+            # pickle round trip of the array
+            for proto in (2, pickle.HIGHEST_PROTOCOL):
+                b = pickle.loads(pickle.dumps(a, protocol=proto))
+                if type(b) is not type(a) or type(b).field is not F or b.shape != a.shape or \
+                        [int(x) for x in flat(b.value)] != [int(x) for x in flat(a.value)] or (vals and not bool((b == a).all())):
+                    bad('array-pickle-roundtrip ' + name, values=vals, protocol=proto, **key)
+        except Exception as ex:
+            import traceback
+            bad('array-stream-raises ' + name, error=repr(ex), tb=traceback.format_exc()[-700:], values=vals[:20], **key)
+print('RESULT ' + json.dumps({'fails': fails, 'cases': ncase, 'hist': hist}))
+"""
+
+
+def array_stream(ctx, p61, p64):
+    """Integer views, bytes and pickle of field ARRAYS (NumPy) against the scalar element methods, in a subprocess
+    under the NumPy interpreter."""
+    import json, os, subprocess
+    from lib.core import PYNP, impl_env
+    if not os.path.exists(PYNP):
+        ctx.notes.append('array stream skipped: %s not present' % PYNP)
+        return 0
+    cfg = {'seed': ctx.seed, 'nrand': ctx.n(20, 200), 'sizes': [0, 1, 2, 3, 5, 6, 8, 12, 13, 24, 40],
+           'primes': [2, 3, 5, 7, 11, 13, 31, 101, 251, 257, 65537, p61, p64, 2 ** 127 - 1, [7, 2, -1], [11, 5, 14], [p64, 2, -1]],
+           'ext': [(3, 2), (3, 4), (7, 3), (17, 2), (5, 7), (257, 2), (2, 1), (2, 8), (2, 9), (2, 16), (2, 17)]}
+    try:
+        pr = subprocess.run([PYNP, '-c', ARRAY_SCRIPT], input=json.dumps(cfg), text=True, env=impl_env(),
+                            stdout=subprocess.PIPE, stderr=subprocess.PIPE, timeout=ctx.n(150, 900))
+    except subprocess.TimeoutExpired:
+        ctx.violation('array-stream-failed', {'error': 'timeout'})
+        return 0
+    line = [l for l in pr.stdout.split('\n') if l.startswith('RESULT ')]
+    if pr.returncode or not line:
+        ctx.violation('array-stream-failed', {'error': (pr.stderr or pr.stdout)[-1500:]})
+        return 0
+    res = json.loads(line[-1][7:])
+    for sig, detail in res['fails']:
+        ctx.violation(sig, detail)
+    for k, v in res['hist'].items():
+        ctx.hist['array ' + k] = ctx.hist.get('array ' + k, 0) + v
+    ctx.evaluations += res['cases']
+    ctx._distinct.update('array #%d' % i for i in range(res['cases']))
+    return res['cases']
 
 
 def run(ctx):
@@ -47,7 +183,7 @@ def run(ctx):
     fields = [('GF(%d)' % p, finfields.GF(p), p, 'prime') for p in primes]
     for dd in [1, 2, 3, 4, 5, 6, 7, 8, 9, 16, 17]:
         fields.append(('GF(2^%d)' % dd, finfields.GF(finfields.find_irreducible(2, dd)), 2 ** dd, 'binary'))
-    for (pp, dd) in [(3, 2), (3, 3), (3, 4), (5, 2), (5, 3), (7, 2), (3, 6), (257, 2)]:
+    for (pp, dd) in [(3, 2), (3, 3), (3, 4), (5, 2), (5, 3), (7, 2), (3, 6), (257, 2), (7, 3), (17, 2), (5, 7)]:     # last four: order bit length = 1 mod 8
         fields.append(('GF(%d^%d)' % (pp, dd), finfields.GF(finfields.find_irreducible(pp, dd)), pp ** dd, 'extension'))
 
     exprs, meta = [], []
@@ -78,6 +214,9 @@ def run(ctx):
             for rep in range(ctx.n(1, 4)):
                 pool = [0, 1, q - 1, q // 2, min(q - 1, 255), min(q - 1, 256), min(q - 1, 65535), rng.randrange(q), rng.randrange(q),
                         rng.randrange(q)]
+                top = 256 ** (r - 1)          # values needing the full width: integer value >= 256^(byte_length-1)
+                if top < q:
+                    pool += [top, rng.randrange(top, q), rng.randrange(top, q), q - 2 if q > 2 else 0]
                 vs = [rng.choice(pool) if rng.random() < 0.6 else rng.randrange(q) for _ in range(n)]
                 if kind == 'prime':
                     x = list(vs)
@@ -85,7 +224,11 @@ def run(ctx):
                 else:
                     elems = [F(v) for v in vs]
                     x = [e.value for e in elems] if rep % 2 == 0 else list(vs)     # polynomial values, or ints
-                data = F.to_bytes(x)
+                try:
+                    data = F.to_bytes(x)
+                except OverflowError as ex:
+                    bad('to_bytes-rejects-field-value ' + name, field=name, values=vs, byte_length=r, error=repr(ex))
+                    continue
                 back = F.from_bytes(data)
                 nrt += 1
                 if not isinstance(data, bytes) or len(data) != r * n:
@@ -241,6 +384,9 @@ def run(ctx):
     ctx.extra['tuple_modulus_fields_checked'] = ntm
     ctx.notes.append('numpy available for the array-type part of the tuple-modulus stream: %s' % bool(np))
 
+    nar = array_stream(ctx, p61, p64)
+    ctx.extra['array_cases_numpy_subprocess'] = nar
+    ctx.log('array view/bytes/pickle cases (NumPy subprocess): %d' % nar)
     ctx.extra['roundtrips_checked'] = nrt
     ctx.extra['views_checked'] = nview
     ctx.extra['pickles_checked'] = npk
